@@ -1211,9 +1211,9 @@ def long_ref(shape, entries, idx):
     return {"shape": rshape, "coords": [list(k) for k in keys], "data": [out[k] for k in keys], "fill": 0}
 
 
-# seconds for one indexing call on an astronomically long axis (measured: 50 - 400 microseconds; generous because a loaded machine may still be
-# compiling a kernel variant); a miss is confirmed by a retry in a fresh process with three times the deadline
-LONG_DEADLINE = 30.0
+# seconds for one indexing call on an astronomically long axis (measured: 50 - 400 microseconds); the pool stretches it by the slowdown of the moment
+# and confirms a miss by a retry that runs alone with three times the limit
+LONG_DEADLINE = 10.0
 
 
 def long_axis_probes(rng, full):
@@ -1238,7 +1238,7 @@ def long_axis_probes(rng, full):
                 for sl in slices1:
                     idx = [{"s": sl}]
                     yield case("xlong[idx]", "getitem-long", [arr1], [X0, idx], {}, "valid", probe=True, warm=warm, deadline=LONG_DEADLINE, value=True,
-                               expect=long_ref([n], ent1, idx), bucket=f"long:{fmt}", hang_cap=2, chunk=f"long-{fmt}-1d", touch=False)
+                               expect=long_ref([n], ent1, idx), bucket=f"long:{fmt}", hang_cap=1, chunk=f"long-{fmt}-1d", touch=False)
                 # 2-d: a short axis and the long one, an integer on the short axis and a slice on the long one (and the other way round)
                 rows = 3
                 ent2 = {(int(rng.integers(0, rows)), q): k + 1 for k, q in enumerate(pos)}
@@ -1254,7 +1254,7 @@ def long_axis_probes(rng, full):
                         for short in (1, {"s": [None, None, None]}, {"s": [None, None, -1]}):
                             idx = [short, {"s": sl}] if order == "short-long" else [{"s": sl}, short]
                             yield case("xlong[idx]", "getitem-long", [arr2], [X0, idx], {}, "valid", probe=True, warm=warm2, deadline=LONG_DEADLINE, value=True,
-                                       expect=long_ref(shape2, e2, idx), bucket=f"long:{fmt}", hang_cap=2, chunk=f"long-{fmt}-2d", touch=False)
+                                       expect=long_ref(shape2, e2, idx), bucket=f"long:{fmt}", hang_cap=1, chunk=f"long-{fmt}-2d", touch=False)
 
 
 def scaling_probes():
@@ -1269,7 +1269,7 @@ def scaling_probes():
                 for sl in ([1, None, None], [None, -1, None], [3, -3, 2]):
                     idx = [{"s": sl}]
                     yield case("xlong[idx]", "getitem-long", [arr_], [X0, idx], {}, "valid", probe=True, warm=warm, deadline=LONG_DEADLINE, value=True,
-                               expect=long_ref([n], e_, idx), bucket=f"long:{fmt}", hang_cap=2, chunk=f"scaling-{fmt}", touch=False,
+                               expect=long_ref([n], e_, idx), bucket=f"long:{fmt}", hang_cap=1, chunk=f"scaling-{fmt}", touch=False,
                                scaling={"fmt": fmt, "nnz": tag, "slice": sl, "extent": n})
 
 
